@@ -122,6 +122,32 @@ func (u *Universe) pkgOfNamed(t types.Type) *PkgInfo {
 // methodCall evaluates recv.M(args) in a contract: pure interface methods only.
 func (c *CEnv) methodCall(e *CE) Value {
 	recv := c.eval(e.Args[0])
+	if recv.K == KPtr && recv.Loc != nil {
+		// a pure method of a concrete type (declared "pure" in that type's package): one uninterpreted
+		// application shared with the call sites in code
+		if nt, ok := types.Unalias(recv.Loc.T).(*types.Named); ok {
+			pi := c.x.vc.uni.pkgOfNamed(nt)
+			key := nt.Obj().Name() + "." + e.Name
+			if pi != nil && pi.Contracts != nil && pi.Contracts.Funcs[key] != nil {
+				fc := pi.Contracts.Funcs[key]
+				fn := c.x.vc.uni.findFunc(pi, fc)
+				if fn != nil && pureScalarFn(fn, fc) && len(fn.Params) == len(e.Args) {
+					args := []Value{recv}
+					for i, a := range e.Args[1:] {
+						p := fn.Params[i+1]
+						if kindOf(p.Type()) == KPtr {
+							args = append(args, c.eval(a))
+							continue
+						}
+						z := c.x.zeroValue(p.Type())
+						args = append(args, c.evalH(a, &z))
+					}
+					return c.x.pureCallValue(c.fr, c.heap(), fn, fc, pi, args)
+				}
+			}
+		}
+		c.fail("method %s has no pure contract in %s", e.Name, e)
+	}
 	if recv.K != KIface || recv.T == nil {
 		c.fail("method call on a non-interface value in %s", e)
 	}
